@@ -324,6 +324,11 @@ func (q *TaskQueue) addAfter(id string, newTask task.Task) {
 		}
 	}
 
+	// when id is not found, append the new task so the queue has no empty slot
+	if !idFound {
+		newItems[len(q.items)] = newTask
+	}
+
 	q.items = newItems
 }
 
@@ -356,6 +361,11 @@ func (q *TaskQueue) addBefore(id string, newTask task.Task) {
 			// when id is found, copy other taskы to i+1 position
 			newItems[i+1] = t
 		}
+	}
+
+	// when id is not found, append the new task so the queue has no empty slot
+	if !idFound {
+		newItems[len(q.items)] = newTask
 	}
 
 	q.items = newItems
